@@ -1,11 +1,12 @@
 import PyxisVerif.Lemmas.Parser
 import PyxisVerif.Lemmas.Lexer
 import PyxisVerif.Lemmas.LexRender
+import PyxisVerif.Lemmas.LexTrivia
 /-!
 # C18 – parsing is the inverse of printing
 
 Property theorems only; helper lemmas live in `Lemmas/Parser.lean` (token level) and
-`Lemmas/Lexer.lean`, `Lemmas/LexRender.lean` (character level).
+`Lemmas/Lexer.lean`, `Lemmas/LexRender.lean`, `Lemmas/LexTrivia.lean` (character level).
 
 `Parse.parseStr` is the model of `parser::parse_str` (`Model/Lexer.lean`: the `proc_macro2`
 fallback lexer and `syn`'s literal decoding; `Model/Parser.lean`: `src/parser/mod.rs` node for
@@ -93,24 +94,8 @@ example : Parse.parseModule (Print.printModule exampleModule) = .ok exampleModul
     every token spelled canonically (decimal integers, cooked strings with escapes, doc
     comments as `#[doc = "…"]`), one blank after every token except between the two characters
     of `::` and `->` – lexes to exactly the printed tokens (up to positions).
-
-    This is `lex_render` for one choice of trivia.  The full statement stays open:
-
-    ```
-    theorem lex_render (m : G.Module) (h : WF m) (τ : Trivia) (hτ : τ.Admissible (printK tr m)) :
-        ∃ ts, Lex.lex (render (printK tr m) τ) = .ok ts ∧ ts.map (·.k) = printK tr m
-    ```
-    where `τ` chooses, per gap, any mixture of white space, `//` comments and nested `/* */`
-    comments (non-empty where the two neighbours would glue: identifier/keyword/number/string
-    suffix next to an identifier character, a punctuation character next to another one – which
-    would change its spacing –, `/` next to `/` or `*`), a spelling for every integer (base,
-    `_` separators: this part is `int_value_in_context`) and `///`/`/** */` for `doc`
-    attributes.  Admissibility must also exclude the trivia `/*ERROR*/` directly between `(` and
-    `)`: `proc_macro2` reads `(/*ERROR*/)` as a single literal (the model reproduces this), so
-    "any comment may stand in any gap" is false for the real lexer.  Missing for the full
-    statement: the induction over comment trivia in `Lemmas/LexRender.lean` (`lexCore_render`
-    handles the single-blank separator only); the lexer side (`scanSlash`, `blockEnd`) is
-    modelled and differentially tested. -/
+    This is `lex_render` for one choice of trivia; the general statement is `lex_render`
+    below. -/
 theorem lex_render_partial (tr : Bool) (m : G.Module) (h : WF m) :
     ∃ ts, Lex.lex (String.ofList (Print.renderCanon (Print.printK tr m))) = .ok ts ∧
       ts.map (·.k) = Print.printK tr m := by
@@ -133,6 +118,42 @@ theorem parse_print_no_trailing (m : G.Module) (h : WF m) :
 
 example : Parse.parseStr (Print.printText exampleModule) = .ok exampleModule :=
   parse_print exampleModule (by decide)
+
+/-- **C18, character level.**  For *every* lay-out `τ` – any mixture of white space, `//`
+    comments and nested `/* */` comments in any gap, any base / `_` separators / letter case for
+    any integer, `///` / `/** */` / `//!` / `/*! */` for any doc attribute – the text
+    `Print.render ts τ` of the tokens `ts` of a well-formed module lexes back to exactly these
+    tokens (up to positions).
+
+    `τ` is unrestricted because `render` itself refuses to write what would read differently
+    (`Model/Printer.lean`): an ill-formed comment piece becomes a blank; a blank is inserted
+    where two tokens would glue together (word next to word, punctuation next to punctuation –
+    which would change its `Spacing` –, identifier next to punctuation – `r#`); nothing is
+    put after the first character of `::` and `->`; a doc text that cannot be a comment
+    (`///` text with a line break or a leading `/`, block text with an unbalanced `*/`, …)
+    stays an attribute; and `(` `/*ERROR*/` `)` gets a blank, because `proc_macro2` reads
+    `(/*ERROR*/)` as a single literal (the model reproduces this), so "any comment may stand in
+    any gap" is false for the real lexer. -/
+theorem lex_render (tr : Bool) (m : G.Module) (h : WF m) (ts : List Tok)
+    (hts : ts.map (·.k) = Print.printK tr m) (τ : Print.Trivia) :
+    ∃ ts', Lex.lex (Print.render ts τ) = .ok ts' ∧ ts'.map (·.k) = ts.map (·.k) := by
+  simp only [Lex.lex, Print.render, String.toList_ofList, hts]
+  have := lexL_renderT τ (Print.printK tr m) (chk_printK tr m h)
+  rw [show ts.length = (Print.printK tr m).length by rw [← hts, List.length_map]]
+  exact this
+
+/-- **C18.**  Parsing is the inverse of printing, whatever the lay-out. -/
+theorem parse_render (m : G.Module) (h : WF m) (τ : Print.Trivia) :
+    Parse.parseStr (Print.render (Print.printModule m) τ) = .ok m := by
+  have hk : (Print.printModule m).map (·.k) = Print.printK true m := by
+    simp [Print.printModule, Function.comp_def]
+  obtain ⟨ts', h1, h2⟩ := lex_render true m h (Print.printModule m) hk τ
+  simp only [Parse.parseStr, h1]
+  exact parse_print_tokens_any true m h ts' (h2.trans hk)
+
+example : Parse.parseStr (Print.render (Print.printModule exampleModule) (Print.Trivia.ofSeed 42))
+    = .ok exampleModule :=
+  parse_render exampleModule (by decide) _
 
 /-! ## integers keep their value, however they are spelled
 
